@@ -2,7 +2,7 @@
 import os, json, re
 
 LEAN_MODULES = ["Sif.Props.C09"]
-EXTRACT = [{"group": "replay", "passes": ["mapranges"]}]
+EXTRACT = [{"group": "replay", "passes": ["mapranges", "pkgvars"]}]
 FAMILIES = [
     # -n = N, the number of executions of every history (pilot + fresh instances, half of the re-executions in
     # separate OS processes); the main history has 40 + 2N blocks
@@ -20,11 +20,18 @@ RULE = ("replay: one generated all-module history (5 pools, 14 providers incl. a
         "fails) plus three directed histories (de-whitelisted "
         "claimants with a three-way power tie; genesis providers without accounts paid by LPPD / by the epoch hook), "
         "each executed N times (N = 8 quick, 64 thorough) in fresh application instances, half of the re-executions in "
-        "separate OS processes; one `chk allEqual` line per block (N app hashes), per block (N EndBlock validator/"
+        "separate OS processes, in three modes that must agree: plain, twin (serves Simulate of admin edits of shared objects, gRPC "
+        "queries and CheckTx of the next block between blocks), restarted (new app object on the same DB twice on the way); the history "
+        "also has rejected two-message transactions whose FIRST message edits a shared decoded object (existing registry entry replaced, "
+        "deregister, set registry, admin removal, whitelist removal, policy update) followed by a failing send; transactions failing the "
+        "stateless ValidateBasic are left out (see note); one `chk allEqual` line per block (N app hashes), per block (N EndBlock validator/"
         "param updates) and per transaction (N tuples Code:Codespace:Data:GasWanted:GasUsed), judged by "
         "Sif.Spec.C09.allEqualN.  non-trivial = distinct transaction line or block line")
 TRUSTED_BASE = [
     "Lean 4.33.0 kernel; axioms propext, Classical.choice, Quot.sound (audited per theorem on every run)",
+    "fact translator extract/replay/pkgvars.go (go/types): package-level variables written outside init (assignment to the variable / its "
+    "fields / elements, address taken, method called); audited list Sif.Spec.C09.auditedPkgVars — state kept behind pointers held in "
+    "struct fields of keepers (not package-level) is NOT seen by this pass, only by the twin/restart re-executions",
     "fact translator extract/replay/mapranges.go (go/types via golang.org/x/tools/go/packages v0.29.0): its notion of map-typed "
     "range operand, of float-typed expression, and its exclusion rule (directories client, simulation, test, testutil, "
     "testhelpers, mock(s); files *_test.go, test_*.go, *_simulation.go)",
@@ -61,7 +68,10 @@ MANIFEST = {
              "goroutine use; `decide` obligations require each to be a reviewed, covered site.  Tie 2 (a TEST, not a proof): the real application is "
              "driven through InitChain/BeginBlock/DeliverTx/EndBlock/Commit with signed transactions on generated all-module histories, N = 8/64 times "
              "in fresh instances and separate processes; app hashes and DeliverTx {Code,Data,GasWanted,GasUsed} are judged equal by a Lean predicate."),
-    "note": ("Proof covers the LOGIC of order-independence on hand-written models and the completeness of the site list; it cannot cover the Go runtime's "
+    "note": ("Observation (cosmos-sdk v0.45 baseapp, not Sifchain code; excluded from the histories): a transaction that fails the stateless "
+             "ValidateBasic gets GasWanted 0 and GasUsed = the gas BeginBlock consumed on the block's shared infinite meter, which is 15127 higher "
+             "in the first block after a node restart (x/upgrade's in-memory downgradeVerified) — honest proposers never include such transactions.  "
+             "Proof covers the LOGIC of order-independence on hand-written models and the completeness of the site list; it cannot cover the Go runtime's "
              "map order, float code generation, IAVL or encoders — those are only exercised by re-execution on this machine.  Found and repaired: F20 "
              "(LPPD / epoch payouts in Go-map order create accounts in nondeterministic order when providers from a hand-made genesis have no account: "
              "app hashes diverged between runs); confirms F2's consensus impact (tied claims of de-whitelisted validators: final claim chosen by map order)."),
@@ -74,13 +84,14 @@ def extra(ctx):
     """When a tie-1 obligation no longer checks, name the sites (so the replay file says which loop / float use is new)."""
     if ctx["lean"]["ok"]:
         return
-    src = ("import Sif.Spec.C09\nimport Sif.Generated.MapRanges\nopen Sif.Spec.C09 Sif.Generated.MapRanges\n"
+    src = ("import Sif.Spec.C09\nimport Sif.Generated.MapRanges\nimport Sif.Generated.PkgVars\nopen Sif.Spec.C09 Sif.Generated.MapRanges\n"
+           "#eval (\"package-level variables written outside init that are not audited\", (unauditedPkgVars Sif.Generated.PkgVars.pkgVars).map (fun v => (v.pkg, v.name, v.ty, v.writes)))\n"
            "#eval (uncoveredRanges mapRanges).map (fun s => (s.pkg, s.fn, s.operand, s.calls, s.exits, s.next))\n"
            "#eval (unallowedUses nondetUses).map (fun s => (s.pkg, s.fn, s.kind, s.n))\n#eval loadErrors\n")
     p = os.path.join(ctx["cache"], "audit", "C09_sites.lean")
     os.makedirs(os.path.dirname(p), exist_ok=True)
     open(p, "w").write(src)
-    ctx["sh"](["lake", "build", "Sif.Spec.C09", "Sif.Generated.MapRanges"], cwd=os.path.join(ctx["root"], "lean"))
+    ctx["sh"](["lake", "build", "Sif.Spec.C09", "Sif.Generated.MapRanges", "Sif.Generated.PkgVars"], cwd=os.path.join(ctx["root"], "lean"))
     rc, out = ctx["sh"](["lake", "env", "lean", p], cwd=os.path.join(ctx["root"], "lean"))
     for b in ctx["broken"]:
         if b["kind"] == "proof":
